@@ -104,6 +104,7 @@ def tcp_counts(n, streaming=False):
                 out["live_tasks"] = len([t for t in asyncio.all_tasks() if not t.done()])
                 gc.collect()
                 out["task_objects"] = sum(1 for o in gc.get_objects() if isinstance(o, asyncio.Task))
+                measured.set()
                 return b""
             return b"P"
 
@@ -121,16 +122,22 @@ def tcp_counts(n, streaming=False):
             return None
 
     async def main():
-        nonlocal handle
+        nonlocal handle, measured
+        measured = asyncio.Event()
         a = A()
 
         async def ri():
             pass
         handle = TcpIo("h", 1)._generate_handle_function(a.on_connect, a.handle_message, ri, a.byte_format)
         t = asyncio.create_task(handle(Reader(), Writer()))
-        await asyncio.wait([t], timeout=(0.3 if streaming else 30))
+        # the streaming connection never ends by itself: wait until the measurement has been taken
+        m = asyncio.create_task(measured.wait())
+        await asyncio.wait([t, m], timeout=120, return_when=asyncio.FIRST_COMPLETED)
+        await asyncio.sleep(0)
         t.cancel()
+        m.cancel()
     handle = None
+    measured = None
     asyncio.run(main())
     return out
 
